@@ -85,6 +85,7 @@ static Verdict runCase(const Case& c, Info& info)
             case 0:
             case 1:
             case 2:
+            case 6:
             {
                 lib::Packet p = makeStatusUpdate(op, i);
                 Snap s = snap(p);
@@ -137,7 +138,7 @@ static rc::Gen<Case> genCase(int tier)
         for (int i = 0; i < n; ++i)
         {
             Op op;
-            op.kind = *rc::gen::weightedElement<uint8_t>({{5, 0}, {8, 1}, {2, 2}, {3, 3}, {3, 4}, {1, 5}});
+            op.kind = *rc::gen::weightedElement<uint8_t>({{5, 0}, {8, 1}, {2, 2}, {3, 3}, {3, 4}, {1, 5}, {3, 6}});
             op.dev = *rc::gen::element<uint16_t>(0, 1, 2, 3, 65535);
             op.iface = *rc::gen::element<uint32_t>(0, 1, 2, 0xFFFFFFFFu);
             op.viaDecoder = *range<uint8_t>(0, 1);
@@ -150,7 +151,7 @@ static rc::Gen<Case> genCase(int tier)
 static void enumerate(int tier, const std::function<bool(const Case&)>& emit)
 {
     const std::vector<Op> alphabet = {{0, 0, 0, 0}, {0, 1, 0, 1}, {1, 0, 0, 1}, {1, 0, 1, 0}, {1, 1, 0, 0}, {2, 0, 0, 0},
-                                      {3, 0, 0, 0}, {3, 1, 0, 0}, {4, 0, 0, 0}, {4, 0, 1, 0}, {5, 0, 0, 0}, {1, 2, 0, 0}};
+                                      {3, 0, 0, 0}, {3, 1, 0, 0}, {4, 0, 0, 0}, {4, 0, 1, 0}, {5, 0, 0, 0}, {1, 2, 0, 0}, {6, 0, 0, 0}};
     int maxLen = tier ? 5 : 4;
     for (int len = 1; len <= maxLen; ++len)
     {
@@ -179,7 +180,7 @@ int main(int argc, char** argv)
     prop.run = runCase;
     prop.enumerate = enumerate;
     prop.enumerationIsExhaustive = true;
-    prop.enumerationNote = "all operation sequences up to length 4 (thorough 5) over a 12-operation alphabet (two devices, two interfaces, an unknown "
+    prop.enumerationNote = "all operation sequences up to length 4 (thorough 5) over a 13-operation alphabet (two devices, two interfaces, an unknown "
                            "device, data packet, removals, clear)";
     return pbtMain(argc, argv, prop);
 }
